@@ -3,6 +3,7 @@
 package main
 
 import (
+	"fmt"
 	"strings"
 	"time"
 
@@ -13,28 +14,34 @@ import (
 // only (a recorded failing history ends at the step where the failure was seen). With
 // checkEvery the views are checked after every step (replay of a whole scenario).
 func runSteps(cfg Config, steps []Step, driver, scratch string, res *lib.Result, checkEvery bool) (fails []Failure, valid bool) {
+	fails, valid, _ = runStepsWhy(cfg, steps, driver, scratch, res, checkEvery)
+	return fails, valid
+}
+
+// runStepsWhy also says why a history could not be executed to the end.
+func runStepsWhy(cfg Config, steps []Step, driver, scratch string, res *lib.Result, checkEvery bool) (fails []Failure, valid bool, why string) {
 	e, err := NewEngine(cfg, lib.NewRNG(1), driver, scratch, res)
 	if err != nil {
-		return []Failure{{Sig: "engine", What: err.Error()}}, false
+		return []Failure{{Sig: "engine", What: err.Error()}}, false, "engine: " + err.Error()
 	}
 	defer e.Close()
 	e.full = true
 	for i, s := range steps {
 		if s.Op == "revert" && e.Height() == 0 {
-			return nil, false
+			return nil, false, fmt.Sprintf("step %d: revert on an empty chain", i)
 		}
 		if err := e.Apply(s); err != nil {
-			return nil, false
+			return nil, false, fmt.Sprintf("step %d (%s): %v", i, s.Op, err)
 		}
 		if e.broken != "" {
 			// a store/revert failure is itself a failure to report, but only at the last step
-			return e.fails, i == len(steps)-1
+			return e.fails, i == len(steps)-1, fmt.Sprintf("step %d (%s): %s", i, s.Op, firstLine(e.broken))
 		}
 		if checkEvery || i == len(steps)-1 {
 			e.CheckAll()
 		}
 	}
-	return e.fails, true
+	return e.fails, true, ""
 }
 
 func hasSig(fs []Failure, violation bool, sig string) bool {
@@ -106,8 +113,8 @@ func joinGroups(gs [][]string, drop int) string {
 // shrink minimises a failing history greedily: drop whole steps, then single diff entries, as
 // long as the same failure (same Sig) is still observed after the last step.
 func shrink(cfg Config, steps []Step, violation bool, sig, driver, scratch string, budget time.Duration) []Step {
-	if violation {
-		driver = "" // the oracle alone decides
+	if violation && !strings.HasSuffix(sig, "-after-drain") {
+		driver = "" // the oracle alone decides (the drain Sig needs the model's answer too)
 	}
 	deadline := time.Now().Add(budget)
 	repro := func(s []Step) bool {
